@@ -52,9 +52,6 @@ Definition drop_empty {K A} (l : list (K * list A)) : list (K * list A) :=
 
 Definition set_eqb (a b : list svc) : bool := forallb (fun x => memN x b) a && forallb (fun x => memN x a) b.
 
-Definition restrict (f : fam) (l : list (poolid * list (ip * Z))) : list (poolid * list (ip * Z)) :=
-  map (fun e => (fst e, filter (fun c => fam_eqb (ip_fam (fst c)) f) (snd e))) l.
-
 Definition use_eqb (l1 l2 : list (poolid * list (ip * Z))) : bool :=
   map_eqb N.eqb (map_eqb ip_eqb Z.eqb) (drop_empty l1) (drop_empty l2).
 
@@ -76,8 +73,8 @@ Definition dump_diff (m : mstate) (d : mdump) : N :=
   else if negb (map_eqb ip_eqb (map_eqb port_eqb N.eqb) (drop_empty (m_ports m)) (drop_empty (d_ports d))) then 3
   else if negb (map_eqb ip_eqb set_eqb (drop_empty (m_svcs m)) (drop_empty (d_svcs d))) then 4
   else if negb (use_eqb (m_use m) (d_use d)) then 5
-  else if negb (use_eqb (restrict F4 (m_use m)) (d_use4 d)) then 6
-  else if negb (use_eqb (restrict F6 (m_use m)) (d_use6 d)) then 7
+  else if negb (use_eqb (m_use4 m) (d_use4 d)) then 6
+  else if negb (use_eqb (m_use6 m) (d_use6 d)) then 7
   else if negb (forallb (fun e => counters_eqb (m_counters_for m (fst e)) (snd e)) (d_counters d)) then 8
   else if negb (forallb (fun p => Bool.eqb (m_check_sharing m (mp_svc p) (mp_ip p) (mp_ports p) (mp_key p)) (mp_ok p)) (d_probes d)) then 9
   else if m_panic m then 10
